@@ -31,7 +31,7 @@ func init() {
 	Register(&Scenario{
 		Name:  "long-sms",
 		Props: []string{"C06", "C07", "C14"},
-		Plan:  simple(6000, 400000),
+		Plan:  simple(20000, 400000),
 		Run:   runLongSMS,
 		Real:  []string{"EncodeCMPPContentAndSplit", "EncodeSMPPContentAndSplit", "ParseLongSmsContent (handset reassembly)", "IEncode/IDecode of cmpp20.PduSubmit, cmpp30.Submit, smpp34.SubmitSm", "codec framers"},
 		Stub:  []string{"ESME session logic", "SMSC forwarding", "air link (reorder, duplicate, interleave)", "handset: reassembly store + reference text decoders (GSM 7-bit table and septet unpacker told the septet count, UTF-16BE, Windows-1252, ASCII; GB18030 via x/text)", "vendor stub sending 16-bit-reference parts"},
